@@ -241,8 +241,15 @@ def _roundtrip(spec: dict, tag: str, label: str, ctx: dict, feats: list[str], se
         viols.append(core.viol(f"re-read model lacks original components under their names [{label}]", None, missing=missing, reread=sorted(names2)[:30], **ctx))
         return viols, counters, True
     try:
-        ic1, ic2 = model.get_initial_conditions(), m2.get_initial_conditions()
-        a1, a2 = model.get_args(), m2.get_args()
+        try:
+            ic1, a1 = model.get_initial_conditions(), model.get_args()
+        except Exception:  # noqa: BLE001
+            return [], {"original_not_evaluable(skipped)": 1}, True
+        import math as _m0
+
+        if any(not _m0.isfinite(float(v)) for v in a1.values):
+            return [], {"original_not_evaluable(skipped)": 1}, True
+        ic2, a2 = m2.get_initial_conditions(), m2.get_args()
         bad = [k for k in ic1 if not core.close(ic2.get(k, float("nan")), ic1[k], 1e-9)]
         bad += [k for k in model.get_parameter_names() if not core.close(a2.get(k, float("nan")), a1[k], 1e-9)]
         if bad:
@@ -252,8 +259,18 @@ def _roundtrip(spec: dict, tag: str, label: str, ctx: dict, feats: list[str], se
         for _ in range(4):
             st = {v: round(rng.uniform(0.3, 2.5), 3) for v in vars1}
             st2 = {v: st.get(v, ic2[v]) for v in m2.get_variable_names()}
-            a1, a2 = model.get_args(st, 0.0), m2.get_args(st2, 0.0)
-            r1, r2 = model.get_right_hand_side(st, 0.0), m2.get_right_hand_side(st2, 0.0)
+            try:
+                a1, r1 = model.get_args(st, 0.0), model.get_right_hand_side(st, 0.0)
+            except Exception:  # noqa: BLE001
+                counters["states_outside_domain_of_original(skipped)"] = counters.get("states_outside_domain_of_original(skipped)", 0) + 1
+                continue
+            import math as _m
+
+            if any(not _m.isfinite(float(v)) for v in list(a1.values) + list(r1.values)):
+                # the original yields inf / nan here (numpy semantics): outside the functions' real domain
+                counters["states_outside_domain_of_original(skipped)"] = counters.get("states_outside_domain_of_original(skipped)", 0) + 1
+                continue
+            a2, r2 = m2.get_args(st2, 0.0), m2.get_right_hand_side(st2, 0.0)
             bad = [k for k in a1.index if k != "time" and a1[k] == a1[k] and not core.close(a2.get(k, float("nan")), a1[k], 1e-9)]
             bad += [f"d{k}/dt" for k in r1.index if r1[k] == r1[k] and not core.close(r2.get(k, float("nan")), r1[k], 1e-9)]
             counters["states_compared"] = counters.get("states_compared", 0) + 1
